@@ -188,7 +188,7 @@ def r2(ctx):
     ctx.ob("control:direct-callback-pattern-matches", len(hit) == 1, "embedded violating snippet is recognised", "")
 
 
-def setsock_paths(ctx, reconnecting: bool, on_reconnect: bool, ping_interval=0, may_raise=None, sock_set=False, app_fields=None, callbacks=None):
+def setsock_paths(ctx, reconnecting: bool, on_reconnect: bool, ping_interval=0, may_raise=None, sock_set=False, app_fields=None, callbacks=None, keep_running=TRUE):
     idx = ctx.index
 
     def ws_ctor(I, run, args, kwargs, node):
@@ -217,7 +217,7 @@ def setsock_paths(ctx, reconnecting: bool, on_reconnect: bool, ping_interval=0, 
     def closure(run):
         cbs = dict(callbacks) if callbacks else {}
         cbs.setdefault("on_reconnect", on_reconnect)
-        app = mk_app(I, run, cbs, keep_running=TRUE, ping_interval=C(ping_interval), **(app_fields(run) if app_fields else {}))
+        app = mk_app(I, run, cbs, keep_running=keep_running, ping_interval=C(ping_interval), **(app_fields(run) if app_fields else {}))
         if sock_set:
             run.cell(app).fields["sock"] = new_obj(run, None, "oldsock")
         return closure_env(run, app, ping_interval=C(ping_interval), skip_utf8_validation=Sym("skip_utf8_validation", "bool"))
